@@ -152,7 +152,7 @@ func runC03(c *Cfg) {
 	nr := c.Pick(30000, 2000000)
 	parallel(c, nr, func(i int) {
 		rg := c.Rng("c03rand", i)
-		sc := scen.GenFlowScenario(rg, scen.GenOpts{MaxNodes: 12, MaxActions: 5, MaxDepth: 3, Failures: i%2 == 0, MaxVisits: 4, Batch: true})
+		sc := scen.GenFlowScenario(rg, scen.GenOpts{MaxNodes: 12, MaxActions: 5, MaxDepth: 3, Failures: i%2 == 0, MaxVisits: 4, Batch: true, SelfNesting: true})
 		if sc.Runs > 1 && i%4 == 1 {
 			failSomewhere(rg.IntN(1<<30), sc) // a run that ends in an error, followed by further runs of the same flow object
 			r.Count("random.scenarios_with_failed_run_then_rerun", 1)
@@ -228,7 +228,7 @@ func runC04(c *Cfg) {
 	nb := c.Pick(3000, 200000)
 	parallel(c, nb, func(i int) {
 		rg := c.Rng("c04", i)
-		base := scen.GenFlowScenario(rg, scen.GenOpts{MaxNodes: 8, MaxActions: 4, MaxDepth: 4, Failures: true, MaxVisits: 3, Zoo: i%5 == 0, Batch: true})
+		base := scen.GenFlowScenario(rg, scen.GenOpts{MaxNodes: 8, MaxActions: 4, MaxDepth: 4, Failures: true, MaxVisits: 3, Zoo: i%5 == 0, Batch: true, MoreErrKinds: true})
 		base.Runs = 1
 		base.Rewire = nil
 		if i%7 == 0 { // single node runs as well
